@@ -31,6 +31,24 @@ CLAIMED["C02"] = dict(
     technique="jaxpr symbolic execution + polynomial hypotheses + z3 QF_LRA (XL certificates); z3 NRA refutation; float64 replay",
     design="§4 C02")
 
+DIRECT_NOTE = ("Assumes real arithmetic and polynomial inputs with symbolic coefficients up to the stated degree/size. "
+               "Trusted base: CPython+JAX tracing (jet/jvp/vmap are JAX's own), the jxs interpreter and polynomial "
+               "arithmetic (re-validated every run against the real JAX runtime), z3.")
+CLAIMED["C10"] = dict(
+    text="Bounded symbolic check of the real routines: each Taylor-coefficient routine is traced (JAX applies jet/jvp "
+         "itself) on polynomial vector fields whose every coefficient, initial value and the initial time are symbols, "
+         "the jaxpr is executed over exact polynomials and z3 decides 'impl != exact total-derivative recursion' (unsat "
+         "= identity for all real coefficient values); sat models are replayed on the real code.",
+    technique="jaxpr symbolic execution to polynomials + z3 (NRA) identity queries; float64 replay",
+    design="§4 C10", note=DIRECT_NOTE)
+CLAIMED["C17"] = dict(
+    text="Bounded symbolic check of the real handlers on polynomial maps with symbolic coefficients and evaluation point; "
+         "Rademacher probes are symbols with v^2=1 and the expectation over ALL sign patterns is taken algebraically, then "
+         "z3 decides equality with the exact Jacobian block; counterexamples are replayed on the real code with the "
+         "exhaustive average over all sign patterns.",
+    technique="jaxpr symbolic execution to polynomials + algebraic expectation over sign probes + z3 identity queries",
+    design="§4 C17", note=DIRECT_NOTE)
+
 NOT_APPLICABLE = {
     "C01": "Global error vs the true (transcendental) ODE solution and observed convergence rates in floating point "
            "cannot be expressed as a bounded real-arithmetic query over the code; its mechanisms are decided under C02, C06, C07, C09.",
